@@ -102,9 +102,14 @@ class C17(WigBedProp):
         d = os.path.join(workdir, "cli")
         os.makedirs(d, exist_ok=True)
         nrun = 0
-        for k in range(8 if tier == "thorough" else 2):
+        for k in range(8 if tier == "thorough" else 3):
             r = rng.fork(k)
             names, sizes, data, _ = bbgen.gen_wig_input(r, nchrom=4, value_mode="int", maxn=30)
+            if k == 2:
+                # 300 small chromosomes, default options: more data sections than the index's fan-out, so the index has an upper
+                # level whose entries span chromosome boundaries
+                names, sizes, d3 = bbgen.many_contigs(300, 4)
+                data = {n: [(a, b, bbgen.f32bits(float(v))) for (a, b, v) in d3[n]] for n in names}
             sz = os.path.join(d, f"s{k}.sizes")
             with open(sz, "w") as f:
                 for n in sizes:
@@ -116,7 +121,7 @@ class C17(WigBedProp):
                         f.write(f"{n}\t{s}\t{e}\t{bbgen.bits_f32(b)}\n")
             bw = os.path.join(d, f"i{k}.bw")
             subprocess.run([repo_bin("bedgraphtobigwig"), bg, sz, bw], capture_output=True)
-            nreg = r.choice([3, 40, 200])          # fewer regions than threads, and many more
+            nreg = r.choice([3, 40, 200]) if k != 2 else 400          # fewer regions than threads, and many more
             if k == 1:
                 nreg = 6000                        # ≈ 150 KiB of BED text: every worker's chunk spans several buffer refills
             regs = []
